@@ -46,6 +46,38 @@ def _branch(fn, node, test_text):
     return branch_of(fn, node, test_text)
 
 
+def gap_of_own_edge_rule(ctx: Ctx, rid: str):
+    """TaskScenario._gapToSuccessor: the gap a successor asks for is taken from the successor's edge ON THIS TASK only -- every update of
+    the gap is reached under the fact that the edge's predecessor is this task (`self._dependsOnMe(pred)` / `pred is self.property`).
+    Without it a backward-scheduled predecessor keeps the largest gap the successor requested on ANY of its predecessors and ends
+    earlier than it has to (C04 R04.16 / C08 R08.16)."""
+    from .common import facts_of
+    fn = ctx.repo.func("TaskScenario._gapToSuccessor")
+    g = cfg_of(fn)
+    facts = facts_of(fn)
+    answer = {x.id for r in own_nodes(fn) if isinstance(r, ast.Return) and r.value is not None for x in ast.walk(r.value) if isinstance(x, ast.Name)}
+    n = 0
+    for node in g.nodes:
+        a = node.ast
+        if not (node.kind == "stmt" and isinstance(a, (ast.Assign, ast.AugAssign))):
+            continue
+        v = a.value
+        if isinstance(v, ast.Constant):
+            continue
+        tgs = a.targets if isinstance(a, ast.Assign) else [a.target]
+        if not any(isinstance(t_, ast.Name) and t_.id in answer for t_ in tgs):
+            continue                      # only what the function hands back: the accumulated gap
+        n += 1
+        cl = facts.holds(node, lambda t, p: p and ("_dependsOnMe(" in t or t.replace(" ", "").endswith("isself.property")))
+        ctx.ob(rid, f"{fn.qual}: {norm(a)[:70]}", (fn, a), cl is not None,
+               "the gap is read from an edge whose predecessor is this task" if cl is not None else
+               "the gap is taken from any finish-to-start edge of the successor, whichever task it points to: with `depends a { gapduration 2d }, b` "
+               "the backward-scheduled b also keeps two days' distance, and its resource idles before a deadline that was free",
+               key=key_of(rid, fn, None, "own edge"))
+    if not n:
+        raise AnchorMissing("_gapToSuccessor: no update of the gap found")
+
+
 def backward_bound_rules(ctx: Ctx, rid: str):
     """TaskScenario.schedule, backward branch: the deadline is a min-accumulator over the successors' starts minus the gap of the
     successor's (own or inherited) edge (C04 R04.2 backward / C08 R08.7)."""
@@ -297,6 +329,7 @@ def run_extra(ctx: Ctx):
     # roll-up that runs while leaves are placed: latest child end / earliest child start (= C10 R10.2 for that roll-up)
     from .c10 import rollup_accumulator_rule
     rollup_accumulator_rule(ctx, "R04.14", which=("upd",))
+    gap_of_own_edge_rule(ctx, "R04.16")
     # ---------------------------------------------------------------- R04.13 every duration parser tells minutes from months
     from .common import duration_unit_rule
     duration_unit_rule(ctx, "R04.13")
